@@ -336,8 +336,8 @@ def worker(ctx, job):
 
 def run(ctx):
     K = ctx.pick(12, 16)
-    jobs = [{"k": k, "N": ctx.pick(30, 400)} for k in range(K)]
-    ctx.shard(jobs, timeout=ctx.pick(120, 900))
+    jobs = [{"k": k, "N": ctx.pick(30, 1500)} for k in range(K)]
+    ctx.shard(jobs, timeout=ctx.pick(120, 1500))
     for sock in ("plain", "tls"):
         ctx.floor("active_beyond_timeout_%s" % sock, ctx.pick(60, 900))
         ctx.floor("persisted_idle_beyond_timeout_%s" % sock, ctx.pick(100, 1500))
